@@ -91,6 +91,17 @@ func c11TypedValue(name string, a, b int) val.V {
 
 var c11OpKinds = []string{"build", "build", "buildtyped", "decode", "copy", "embed", "bytesreader", "subset", "transform", "reread", "partial", "largebytes", "encode", "reset", "assignroot", "walk"}
 
+// eofSeeker is a bytes.Reader that returns io.EOF together with the last bytes instead of on the next call.
+type eofSeeker struct{ *bytes.Reader }
+
+func (r *eofSeeker) Read(p []byte) (int, error) {
+	n, err := r.Reader.Read(p)
+	if err == nil && r.Reader.Len() == 0 && n > 0 {
+		return n, io.EOF
+	}
+	return n, err
+}
+
 func c11CheckAll(ts []tracked, after string) error {
 	for i, t := range ts {
 		for round := 0; round < 2; round++ {
@@ -176,6 +187,10 @@ func c11Check(c C11Case, rec *evid.Rec) error {
 				if op.V.K != val.Bytes && op.V.K != val.String {
 					content = []byte("0123456789abcdef")
 				}
+				if op.A%2 == 1 {
+					// a source that delivers its last bytes together with io.EOF (legal for an io.Reader)
+					return track(basicnode.NewBytesFromReader(&eofSeeker{Reader: bytes.NewReader(append([]byte{}, content...))}), "NewBytesFromReader(data+EOF)", nil)
+				}
 				return track(basicnode.NewBytesFromReader(bytes.NewReader(append([]byte{}, content...))), "NewBytesFromReader", nil)
 			case "copy":
 				if tgt.snap.Has(func(x val.V) bool { return x.K == val.Uint }) {
@@ -243,7 +258,11 @@ func c11Check(c C11Case, rec *evid.Rec) error {
 				return track(nb.Build(), "embed/"+op.Impl, nb)
 			case "subset":
 				// a subset match on the node itself (strings and bytes; otherwise a plain match)
-				s := refsel.MatchSubset(int64(op.A%9-4), int64(op.B%11-4))
+				to := int64(op.B%11 - 4)
+				if op.B%5 == 4 {
+					to = 1000 // beyond the end: the slice reaches the end of the source
+				}
+				s := refsel.MatchSubset(int64(op.A%9-4), to)
 				if s.Subset[1] >= 0 && s.Subset[0] > s.Subset[1] {
 					s.Subset[0], s.Subset[1] = s.Subset[1], s.Subset[0]
 				}
